@@ -14,6 +14,7 @@ import (
 	logging "github.com/ipfs/go-log/v2"
 	"github.com/ipld/go-storethehash/store/freelist"
 	"github.com/ipld/go-storethehash/store/types"
+	"github.com/ipld/go-storethehash/store/vhook"
 )
 
 var log = logging.Logger("storethehash/mhprimary")
@@ -108,6 +109,7 @@ func (gc *primaryGC) run(interval, timeLimit time.Duration) {
 // gc searches for and removes stale primary files. Returns the number of bytes
 // of storage reclaimed.
 func (gc *primaryGC) gc(ctx context.Context, lowUsePercent int64, timeLimit time.Duration) (int64, error) {
+	vhook.At("mh.gc.cycle.start")
 	gc.reclaimed = 0
 	affectedSet, err := processFreeList(ctx, gc.freeList, gc.primary.basePath, gc.primary.maxFileSize)
 	if err != nil {
@@ -117,6 +119,7 @@ func (gc *primaryGC) gc(ctx context.Context, lowUsePercent int64, timeLimit time
 		return 0, fmt.Errorf("cannot process freelist: %w", err)
 	}
 
+	vhook.At("mh.gc.after-freelist")
 	// Remove all files in the affected set from the visited set.
 	for fileNum := range affectedSet {
 		delete(gc.visited, fileNum)
@@ -144,6 +147,7 @@ func (gc *primaryGC) gc(ctx context.Context, lowUsePercent int64, timeLimit time
 
 		filePath := primaryFileName(gc.primary.basePath, fileNum)
 
+		vhook.AtV("mh.gc.file.start", fileNum)
 		dead, err := gc.reapRecords(fileNum, lowUsePercent)
 		if err != nil {
 			return gc.reclaimed, err
@@ -151,9 +155,11 @@ func (gc *primaryGC) gc(ctx context.Context, lowUsePercent int64, timeLimit time
 
 		if dead && fileNum == header.FirstFile {
 			header.FirstFile++
+			vhook.At("mh.gc.before-header")
 			if err = writeHeader(gc.primary.headerPath, header); err != nil {
 				return 0, fmt.Errorf("cannot write header: %w", err)
 			}
+			vhook.At("mh.gc.before-remove")
 			if err = os.Remove(filePath); err != nil {
 				return 0, fmt.Errorf("cannot remove primary file %s: %w", filePath, err)
 			}
@@ -170,6 +176,7 @@ func (gc *primaryGC) gc(ctx context.Context, lowUsePercent int64, timeLimit time
 		}
 	}
 
+	vhook.At("mh.gc.cycle.end")
 	return gc.reclaimed, nil
 }
 
@@ -226,6 +233,7 @@ func (gc *primaryGC) reapRecords(fileNum uint32, lowUsePercent int64) (bool, err
 					freeAtSize = size
 				} else {
 					binary.LittleEndian.PutUint32(sizeBuf, freeAtSize|deletedBit)
+					vhook.At("mh.gc.reap.before-merge")
 					_, err = file.WriteAt(sizeBuf, freeAt)
 					if err != nil {
 						return false, fmt.Errorf("cannot write to index file %s: %w", file.Name(), err)
@@ -263,9 +271,11 @@ func (gc *primaryGC) reapRecords(fileNum uint32, lowUsePercent int64) (bool, err
 	// If there is a span of free records at end of file, truncate file.
 	if freeAt > busyAt {
 		// End of primary is free.
+		vhook.AtV("mh.gc.reap.before-truncate", fileNum)
 		if err = file.Truncate(freeAt); err != nil {
 			return false, err
 		}
+		vhook.AtV("mh.gc.reap.after-truncate", fileNum)
 		gc.reclaimed += int64(freeAtSize)
 		log.Debugw("Removed free records from end of primary file", "file", fileName, "at", freeAt, "bytes", freeAtSize)
 
@@ -311,7 +321,9 @@ func (gc *primaryGC) reapRecords(fileNum uint32, lowUsePercent int64) (bool, err
 				return false, fmt.Errorf("cannot get index key for record key: %w", err)
 			}
 			// Store the key and value in the primary.
+			vhook.AtV("mh.gc.relocate.read", []byte(indexKey))
 			fileOffset, err := gc.primary.Put(key, val)
+			vhook.At("mh.gc.relocate.after-put")
 			if err != nil {
 				return false, fmt.Errorf("cannot put new primary record: %w", err)
 			}
@@ -327,6 +339,7 @@ func (gc *primaryGC) reapRecords(fileNum uint32, lowUsePercent int64) (bool, err
 			} else {
 				log.Debugw("Moved record from end of low-use file", "from", fileName, "free", totalFree, "busy", totalBusy)
 			}
+			vhook.At("mh.gc.relocate.after-update")
 			// Do not truncate file here, because moved record may not be
 			// written yet. Instead put moved record onto freelist and let next
 			// GC cycle process freelist and delete this record. This also
@@ -339,6 +352,7 @@ func (gc *primaryGC) reapRecords(fileNum uint32, lowUsePercent int64) (bool, err
 				return false, fmt.Errorf("cannot put old record location into freelist: %w", err)
 			}
 
+			vhook.At("mh.gc.relocate.after-free")
 			busyAt = prevBusyAt
 			busySize = prevBusySize
 			prevBusyAt = -1
@@ -358,6 +372,7 @@ func processFreeList(ctx context.Context, freeList *freelist.FreeList, basePath 
 		return nil, fmt.Errorf("cannot get freelist gc file: %w", err)
 	}
 
+	vhook.AtV("mh.gc.freelist.after-togc", flPath)
 	fi, err := os.Stat(flPath)
 	if err != nil {
 		return nil, fmt.Errorf("cannot stat freelist gc file: %w", err)
@@ -414,6 +429,7 @@ func processFreeList(ctx context.Context, freeList *freelist.FreeList, basePath 
 		log.Debugw("Marked primary records from freelist as deleted", "count", count, "elapsed", time.Since(startTime).String())
 	}
 
+	vhook.At("mh.gc.freelist.before-remove-gc")
 	if err = os.Remove(flPath); err != nil {
 		return nil, fmt.Errorf("error removing freelist: %w", err)
 	}
@@ -483,6 +499,7 @@ func deleteRecords(freeBatch []*types.Block, maxFileSize uint32, basePath string
 		// Mark the record as deleted by setting the highest bit in the size. This
 		// assumes that the record size is < 2^31.
 		binary.LittleEndian.PutUint32(sizeBuf, recSize|deletedBit)
+		vhook.AtV("mh.gc.freelist.before-mark", *freeRec)
 		_, err = file.WriteAt(sizeBuf, int64(localPos))
 		if err != nil {
 			log.Errorw("Cannot write to primary file", "file", file.Name(), "err", err)
